@@ -288,8 +288,13 @@ def asciiOnlyALabel (l : List Nat) : Bool :=
 def undecodableALabel (l : List Nat) : Bool :=
   hasAce l && (decode (l.drop 4)).isNone
 
-/-- Domain containing an ASCII-only A-label (ASCII case folded, as the mapping profiles do). -/
-def excluded (x : List Nat) : Bool := (splitDots (x.map lowerAscii)).any asciiOnlyALabel
+/-- The full stops UTS 46 maps to `.` (U+3002, U+FF0E, U+FF61). -/
+def foldDot (c : Nat) : Nat := if c = 12290 ∨ c = 65294 ∨ c = 65377 then 46 else c
+
+/-- Domain containing an ASCII-only A-label (ASCII case and the UTS 46 full stops folded, as the
+mapping profiles do). -/
+def excluded (x : List Nat) : Bool :=
+  (splitDots ((x.map lowerAscii).map foldDot)).any asciiOnlyALabel
 
 /-- Lower-case ASCII domain: the UTS 46 mapping step of every profile is the identity on it. -/
 def asciiLower (x : List Nat) : Bool := x.all (fun c => decide (c < 128) && !(decide (65 ≤ c) && decide (c ≤ 90)))
